@@ -41,7 +41,14 @@ def core_schema():
     # selection / weighting algos
     s.declare(include_no_data="bool", include_negative="bool", tickers="labels", lookback="int", lag="int", min_count="int",
               signal="auxframe", stat="auxframe", weights="auxframe", regex="opaque", ascending="bool", all_or_none="bool", filter_selected="bool", sel_n="float",
-              stat_name="optstr", signal_name="optstr", weights_name="optstr")
+              stat_name="optstr", signal_name="optstr", weights_name="optstr", target_weights="auxframe",
+              # algo parameters that are plain numbers / dicts / names (not time-indexed data)
+              limit="opaque", global_limit="bool", scale="float", bounds="opaque", weight_sum="float", covar_method="opaque", rf="float", initial_weights="opaque",
+              risk_weights="opaque", risk_parity_method="opaque", maximum_iterations="int", tolerance="float", target_volatility="opaque", annualization_factor="float",
+              PTE_volatility_cap="float", amount="float", notional_value="opaque", on_the_run="opaque", close_dates="opaque", roll_data="opaque", transactions="opaque",
+              rfqs="opaque", model="opaque", measure="opaque", history="int", measures="opaque", pseudo="bool", throw_nan="bool", include_types="opaque", exclude_types="opaque",
+              item="opaque", pred="opaque", if_none="bool", fmt_string="opaque", _name="opaque")
+    s.declare(_last_chk="optdate", _funiverse_hi="date")
     s.declare(_weights="optdict", _days_left="optfloat", rot_n="float", _rb="ref:Rebalance")
     # Backtest
     s.declare(strategy="ref:StrategyBase", additional_data="opaque", initial_capital="float", progress_bar="bool", stats="opaque", _original_prices="opaque",
